@@ -3,7 +3,7 @@
 # Confirms a seeded change: builds, existing tests pass with it, demo FAILS with it and PASSES without it.
 set -u
 WT=$1; PATCH=$(realpath "$2"); DEMO=$3; TESTS=$4
-export GOFLAGS=-mod=mod GOPROXY=off
+export GOFLAGS="-mod=mod -trimpath" GOPROXY=off
 cd "$WT" || exit 2
 echo "== build with change"; go build ./... || { echo "BUILD FAILS"; exit 1; }
 echo "== demo with change (must FAIL)"; if timeout 1500 sh -c "$DEMO" >/tmp/confirm_demo_with.log 2>&1; then echo "UNEXPECTED: demo passes with change"; R1=bad; else echo "ok: demo fails with change"; R1=ok; fi
